@@ -3,7 +3,8 @@
    Only statements, each closed by [exact] of a lemma proved in Proofs/.
    Runtime residue (not a theorem of any Gallina model): Go scheduler and
    memory model, fairness, completeness of the race detector. *)
-From PV Require Import Base.Prelude Base.Text Model.Locks Model.LocksOps Model.LocksKnown Proofs.Locks Proofs.LocksOps.
+From PV Require Import Base.Prelude Base.Text Model.Locks Model.LocksOps Model.LocksKnown Proofs.Locks Proofs.LocksOps
+  Proofs.LocksSound Proofs.LocksTable.
 Open Scope string_scope.
 Open Scope nat_scope.
 
@@ -98,6 +99,41 @@ Example C09_lockset_partial_nonvacuous :
           (taccs op [] (flat op (template Capture))) = true.
 Proof. exact lockset_partial_nonvacuous. Qed.
 Print Assumptions C09_lockset_partial_nonvacuous.
+
+(* THE GENERAL LOCKSET LEMMA (any operation table with lock-ordered, balanced templates): a data race of the
+   model — two distinct threads about to access one location, one of them writing — in ANY reachable state
+   of ANY multiset of operations on ANY rows is reported by the static analysis of the two templates.
+   (Mutual exclusion of the RW-lock semantics + the invariant tying each thread's held set to the static
+   walk of its template; not an exploration.) *)
+Theorem C09_lockset : forall (op : Type) (template : op -> tmpl op) (rk : lock -> nat),
+  (forall o rows, ordered op rk [] (body op template o rows)) ->
+  (forall o, tmpl_bal op (template o) = true) ->
+  forall (l : list (op * list nat)) s,
+  reachable op template (init op template l) s ->
+  forall i j ti tj x w1 w2, i <> j ->
+    nth_error (threads op s) i = Some ti -> nth_error (threads op s) j = Some tj ->
+    LocksSound.next_access op ti = Some (x, w1) -> LocksSound.next_access op tj = Some (x, w2) -> w1 || w2 = true ->
+    In (fst x) (racy_fields op (template (top op ti)) (template (top op tj))).
+Proof. exact lockset_sound. Qed.
+Print Assumptions C09_lockset.
+
+(* On the transcribed table: start any multiset of operations that respects the pattern (pairwise allowed to
+   overlap), on any rows; in every state of every interleaving every data race of the model is one of the
+   recorded (operation pair, field) keys — so every other pair of operations is data-race free in the model. *)
+Theorem C09_model_races_are_known : forall (l : list (op * list nat)) s,
+  tops_ok (init op template l) ->
+  reachable op template (init op template l) s ->
+  forall i j ti tj x w1 w2, i <> j ->
+    nth_error (threads op s) i = Some ti -> nth_error (threads op s) j = Some tj ->
+    LocksSound.next_access op ti = Some (x, w1) -> LocksSound.next_access op tj = Some (x, w2) -> w1 || w2 = true ->
+    known_C09 (race_key (top op ti) (top op tj) (fst x)) = true.
+Proof. exact model_races_are_exactly_the_known_ones. Qed.
+Print Assumptions C09_model_races_are_known.
+
+Example C09_known_race_instance :
+  tops_ok race_init /\ known_C09 (race_key ParseFast Purge FHostLastSeen) = true.
+Proof. exact known_race_instance. Qed.
+Print Assumptions C09_known_race_instance.
 
 (* ---------------------------------------------------------------------- *)
 (* Channels: no send on / close of a closed channel.  REFUTED (Close vs the notification senders, Close vs
